@@ -37,6 +37,23 @@ def _tla(v):
     raise TypeError(v)
 
 
+def tlc_safe(x):
+    """JSON that TLC's Json module can read: no null, no floats, ints inside 32 bits."""
+    if x is None:
+        return "null"
+    if isinstance(x, bool):
+        return x
+    if isinstance(x, int):
+        return x if -(2**31) < x < 2**31 else "int:%d" % x
+    if isinstance(x, float):
+        return "float:%r" % x
+    if isinstance(x, dict):
+        return {str(k): tlc_safe(v) for k, v in x.items()}
+    if isinstance(x, (list, tuple)):
+        return [tlc_safe(v) for v in x]
+    return x
+
+
 def _one(args):
     module, cfgp, tracefile, outfile, work, timeout, dfs = args
     r = tlc.run_tlc(
@@ -76,7 +93,7 @@ def validate(module, traces, constants, *, work, jobs=16, chunk=400, timeout=900
         if os.path.exists(of):
             os.remove(of)
         with open(tf, "w") as f:
-            json.dump(part, f)
+            json.dump(tlc_safe(part), f)
         tasks.append((i * size, len(part), (module, cfgp, tf, of, work, timeout, dfs)))
     accepted, rejected, failed = [], {}, {}
     states = trans = 0
